@@ -8,7 +8,7 @@ implementation: emmet.abbreviation.parse (tokenize + parse + convert, attributes
 exactly the node(s) the SPEC gives.  The same texts go through the extracted model (coq/run/TextRun.v,
 `parse_abbr`), which the theorems speak about.  Nothing here imports parser/convert code of the implementation.
 
-Element  := name part* text?      part := '#'word | '.'word | '[' attr (' ' attr)* ']'      text := '{' e '}'
+Element  := name part* text? '/'?  part := '#'word | '.'word | '[' attr (' ' attr)* ']'      text := '{' e '}'
 attr     := '!'? aname '.'? value  value := '' | '=' | '='unq | "='" q "'" | '="' q '"' | '={' e '}'
 """
 import json
@@ -150,7 +150,7 @@ def rand_elem(rng, jsx=False, nparts=None):
         else:
             parts.append(('set', [rand_attr(rng) for _ in range(rng.choice([0, 1, 1, 2, 3, 5]))]))
     text = rand_braced(rng) if rng.random() < 0.35 else None          # (written, value)
-    return {'name': name, 'parts': parts, 'text': text}
+    return {'name': name, 'parts': parts, 'text': text, 'close': rng.random() < 0.2}
 
 
 def rand_text_elem(rng, jsx=False):
@@ -177,6 +177,8 @@ def elem_text(e):
             out.append('[' + ' '.join(a['text'] for a in x) + ']')
     if e.get('text') is not None:
         out.append('{' + e['text'][0] + '}')
+    if e.get('close'):
+        out.append('/')
     return ''.join(out)
 
 
@@ -208,7 +210,7 @@ def node_of(e, kids=()):
     value = None
     if e.get('text') is not None and e['text'][1]:
         value = (('s', e['text'][1]),)           # the payload with escapes resolved; nothing for `{}`
-    return (e['name'], value, None, ms if ms else None, False, tuple(kids))
+    return (e['name'], value, None, ms if ms else None, bool(e.get('close')), tuple(kids))
 
 
 # ---------------------------------------------------------------- statements: e1 op1 e2 ... en
@@ -250,8 +252,8 @@ def stmt_tree(xs):
 
 
 # ---------------------------------------------------------------- fixed seeds (run first)
-def lit(name, *parts, text=None):
-    return {'name': name, 'parts': list(parts), 'text': text}
+def lit(name, *parts, text=None, close=False):
+    return {'name': name, 'parts': list(parts), 'text': text, 'close': close}
 
 
 def attr(name, kind, written, value, vt, implied=False, boolean=False):
@@ -276,6 +278,9 @@ SEEDS = [
     lit('p', ('class', 'c'), ('set', [attr('t', 'unq', '=1', '1', 0)]), text=('a>b*3 \\{x\\} (y)', 'a>b*3 {x} (y)')),
     lit('p', ('set', [attr('t', 'q2', '="]"', ']', 2)]), text=('', '')),
     lit('p', ('id', 'i'), text=(' [x] {y{z}} \\$ ', ' [x] {y{z}} $ ')),
+    lit('x1', close=True),
+    lit('x', ('class', 'a1'), ('set', [attr('b', 'none', '', None, 0, boolean=True)]), close=True),
+    lit('x', ('id', 'i'), text=('t', 't'), close=True),
 ]
 
 
@@ -429,7 +434,15 @@ def expand_expected(e, cfg):
     opts = Config(copy.deepcopy(cfg)).options
     spec = au.element_spec(au_mentions(e), opts)
     text = e['text'][1] if e.get('text') is not None else ''
-    return '<%s%s>%s</%s>' % (e['name'], ''.join(au.render_attr(r) for r in spec), text, e['name'])
+    return '<%s%s%s' % (e['name'], ''.join(au.render_attr(r) for r in spec), leaf_tail(e, text, '', opts))
+
+
+def leaf_tail(e, text, kids, opts):
+    """`>` text children `</name>`; a childless element marked `/` without text is closed by selfClosingStyle."""
+    if e.get('close') and not text and not kids:
+        style = opts.get('output.selfClosingStyle')
+        return {'xhtml': ' />', 'xml': '/>'}.get(style, '>')
+    return '>%s%s</%s>' % (text, kids, e['name'])
 
 
 def run_expand_stream(ctx, prop, n, text_only=False):
@@ -459,7 +472,7 @@ def run_expand_stream(ctx, prop, n, text_only=False):
             # statement domain: values free of line breaks (a line break inside a value is re-indented: C12)
             if any(c in text for c in '\r\n'):
                 if k < len(SEEDS) * 2 and not text_only:
-                    e = {'name': 'x', 'parts': [], 'text': None}
+                    e = {'name': 'x', 'parts': [], 'text': None, 'close': False}
                     break
                 continue
             break
@@ -469,8 +482,9 @@ def run_expand_stream(ctx, prop, n, text_only=False):
     def oracle(abbr, cfg, meta, r):
         if text_only:
             # C04 speaks about the text only: it must stand, verbatim, between the open tag and the closing tag
+            # (an empty text `{}` claims nothing: with the `/` mark the element is then written self-closed)
             ok = r[0] == 'ok' and r[1].startswith('<' + meta['name']) and \
-                r[1].endswith('>%s</%s>' % (meta['text'], meta['name']))
+                (not meta['text'] or r[1].endswith('>%s</%s>' % (meta['text'], meta['name'])))
             return None if ok else 'output %r, the written statement gives \u27eawant\u27eb%s' % (r, json.dumps(meta))
         if r != ('ok', meta['want']):
             return 'output %r, the written mentions give \u27eawant\u27eb%s' % (r, json.dumps(meta['want']))
@@ -491,7 +505,7 @@ def replay_expand(rp):
     if isinstance(want, dict):
         # C04: only the text between the tags is claimed
         bad = not (r[0] == 'ok' and r[1].startswith('<' + want['name']) and
-                   r[1].endswith('>%s</%s>' % (want['text'], want['name'])))
+                   (not want['text'] or r[1].endswith('>%s</%s>' % (want['text'], want['name']))))
         want = want['want']
     print('expand(%r, %r) -> %r\nproperty oracle (merged mentions through the output table give %r): %s'
           % (rp['abbr'], rp['config'], r, want, 'FAILS' if bad else 'holds'))
@@ -553,7 +567,7 @@ def check_stmt_parse(abbr, cfg, places):
     for k, ((d, e), g) in enumerate(zip(places, got)):
         value = (('s', e['text'][1]),) if e.get('text') is not None and e['text'][1] else None
         gv = None if g[2] is None else tuple(tuple(x) for x in g[2])
-        if (g[0], g[1], gv, g[3], bool(g[5])) != (d, e['name'], value, None, False):
+        if (g[0], g[1], gv, g[3], bool(g[5])) != (d, e['name'], value, None, bool(e.get('close'))):
             return 'place %d is %r, written: depth %d element %r text %r' % (k, g[:4], d, e['name'], value), t
         if not same_attrs(merged_attrs(e, reverse), g[4]):
             return 'place %d (%s) carries attributes %r, its written mentions merge to %r' % (
@@ -607,7 +621,8 @@ def run_stmt_parse_stream(ctx, prop, n):
 
 
 def replay_stmt_parse(rp):
-    places = [(d, {'name': e['name'], 'parts': [tuple(p) for p in e['parts']], 'text': e.get('text')}) for d, e in rp['places']]
+    places = [(d, {'name': e['name'], 'parts': [tuple(p) for p in e['parts']], 'text': e.get('text'), 'close': e.get('close')})
+              for d, e in rp['places']]
     why, t = check_stmt_parse(rp['abbr'], rp['config'], places)
     print('markup.parse(%r, %r) -> %r\nproperty oracle (places + merged mentions per element): %s' % (rp['abbr'], rp['config'], t, why or 'holds'))
     return 1 if why else 0
@@ -629,7 +644,7 @@ def render_places(places, cfg):
             kids, j = build(i + 1, d + 1)
             spec = au.element_spec(au_mentions(e), opts)
             text = e['text'][1] if e.get('text') is not None else ''
-            out.append('<%s%s>%s%s</%s>' % (e['name'], ''.join(au.render_attr(r) for r in spec), text, kids, e['name']))
+            out.append('<%s%s%s' % (e['name'], ''.join(au.render_attr(r) for r in spec), leaf_tail(e, text, kids, opts)))
             i = j
         return ''.join(out), i
     return build(0, 0)[0]
